@@ -3,7 +3,7 @@
 (*   dict_match(l, r)  holds iff l and r agree on every shared nested key                *)
 (*   dict_merge(l, r)  is the recursive union, the right argument wins on conflicting      *)
 (*                     leaves; it neither aliases nor mutates its arguments (harness)      *)
-(*   natural_join(R1,..) is the relational natural join of lists of nested dictionaries     *)
+(*   natural_join(R1,..) is the relational natural join of lists of nested dictionaries    *)
 (*                                                                                      *)
 (* (M) nested dictionaries as sets of <<path, leaf>> entries:            lib/Nested.tla   *)
 (* (O) relational oracle: Agree (r U s is a function), MergeO, JoinO                      *)
@@ -14,7 +14,7 @@
 (*       track "join":             acc := natural_join(acc, R) (JoinR) or                 *)
 (*                                 acc := natural_join(R, acc) (JoinL); rels is the list   *)
 (*                                 of relations joined so far, so that the n-ary call      *)
-(*                                 natural_join(R1, .., Rn) can be   with the fold.      *)
+(*                                 natural_join(R1, .., Rn) can be compared with the fold. *)
 (*     computed with the recursion of the code (MatchRec / MergeRec / JoinSeq / JoinN).    *)
 (* (P) invariants at the bottom: the recursion decides exactly the relational notions.    *)
 (*                                                                                      *)
@@ -28,7 +28,7 @@ EXTENDS Nested, Json, IOUtils
 Track  == IOEnv.TRACK
 MaxLen == atoi(IOEnv.MAXLEN)
 Size   == IOEnv.SIZE            \* "small" (quick) / "large" (thorough)
-Dirs   == IOEnv.DIRS            \* "both": the current value is used as left and as right argument; "right": only as left
+Dirs   == IOEnv.DIRS            \* "both": the current value is used as left and as right argument; "right": as left only
 
 \* ------------------------------------------------------------------ universes
 A(l) == Atom(l)
